@@ -83,6 +83,8 @@ fn thresholds(cfg: &Cfg, rep: &mut Report) {
                 let total: u64 = weights.iter().map(|x| *x as u64).sum();
                 let ctx = transfer_ctx(e, &w.account(), &account, &w.account(), 5);
                 let mut rule_id = 0u32;
+                let mut prev_rule: Option<(u32, u32)> = None;
+                let stranger_account = w.account();
                 let tlist: Vec<u64> = if weighted {
                     let mut t: Vec<u64> = vec![0, 1, total.saturating_sub(1), total, total + 1, weights[0] as u64, weights[0] as u64 + 1];
                     t.extend((0..3).map(|_| rng.below(total + 2)));
@@ -153,33 +155,58 @@ fn thresholds(cfg: &Cfg, rep: &mut Report) {
                             rep.check("auth", en_unsigned.is_err(), &format!("C14/auth/{pname}/enforce/without-account-authorization"), || format!("enforce without the account's authorization: {en_unsigned:?}"));
                         }
                     }
-                    // set_threshold: same validity rule
-                    for t2 in [0u64, 1, if weighted { total } else { n as u64 }, if weighted { total + 1 } else { n as u64 + 1 }] {
+                    // the parameters belong to (account, rule): another account has nothing under this rule id,
+                    // and the rule installed before this one still answers with ITS threshold
+                    {
+                        let other: Result<u32, Fail> = invoke(e, &policy, "get_threshold", args!(e, rule_id, stranger_account.clone()));
+                        rep.check("ref", other.is_err(), &format!("C14/ref/{pname}/get_threshold/answered-for-another-account"), || format!("get_threshold(rule {rule_id}) for an account that never installed the policy: {other:?}"));
+                        if let Some((pid, pt)) = prev_rule {
+                            let g: Result<u32, Fail> = invoke(e, &policy, "get_threshold", args!(e, pid, account.clone()));
+                            rep.check("ref", g == Ok(pt), &format!("C14/ref/{pname}/get_threshold/earlier-rule-changed-by-later-install"), || format!("rule {pid} was left with threshold {pt}; after installing rule {rule_id} (threshold {t}) it reports {g:?}"));
+                        }
+                    }
+                    // set_threshold: same validity rule; the threshold in force is modelled from the calls
+                    // that succeeded, never read back, and every subset is judged against it
+                    let mut mt: u64 = t;
+                    for t2 in [0u64, 1, if weighted { total } else { n as u64 }, if weighted { total + 1 } else { n as u64 + 1 }, (if weighted { total } else { n as u64 } + 1) / 2] {
                         if t2 > u32::MAX as u64 {
                             continue;
                         }
                         let a = args!(e, t2 as u32, r.clone(), account.clone());
+                        let unsigned = call(&w, &policy, &account, "set_threshold", a.clone(), false);
+                        rep.check("auth", unsigned.is_err(), &format!("C14/auth/{pname}/set_threshold/without-account-authorization"), || format!("set_threshold({t2}) without the account's authorization: {unsigned:?}"));
                         let got = call(&w, &policy, &account, "set_threshold", a, true);
                         let want = t2 >= 1 && t2 <= if weighted { total } else { n as u64 };
-                        rep.evaluations += 1;
+                        rep.evaluations += 2;
                         rep.check("ref", got.is_ok() == want, &format!("C14/ref/{pname}/set_threshold/outcome"), || format!("set_threshold({t2}) with reach {}: {got:?}", if weighted { total } else { n as u64 }));
+                        if got.is_ok() {
+                            mt = t2;
+                        }
                         let cur: u32 = invoke(e, &policy, "get_threshold", args!(e, rule_id, account.clone())).must("get_threshold");
-                        if got.is_err() {
-                            rep.check("res", cur != t2 as u32 || t2 == t, &format!("C14/res/{pname}/set_threshold/refused-value-stored"), || format!("refused set_threshold({t2}) but threshold is now {cur}"));
+                        rep.check("ref", cur as u64 == mt, &format!("C14/ref/{pname}/set_threshold/threshold-in-force"), || format!("after set_threshold({t2}) -> {}: get_threshold = {cur}, the calls that succeeded so far imply {mt}", tag(&got)));
+                        for mask in 0u32..(1 << n) {
+                            let sub: Vec<Signer> = (0..n).filter(|i| mask >> i & 1 == 1).map(|i| signers[i].clone()).collect();
+                            let have: u64 = if weighted { (0..n).filter(|i| mask >> i & 1 == 1).map(|i| weights[i] as u64).sum() } else { mask.count_ones() as u64 };
+                            let ce: Result<bool, Fail> = invoke(e, &policy, "can_enforce", args!(e, ctx.clone(), signers_vec(e, &sub), r.clone(), account.clone()));
+                            rep.evaluations += 1;
+                            rep.check("ref", ce == Ok(have >= mt), &format!("C14/ref/{pname}/can_enforce-after-set_threshold"), || format!("threshold now {mt} (set_threshold({t2}) -> {}), subset {mask:b} (have {have}): can_enforce = {ce:?}", tag(&got)));
                         }
                     }
+                    prev_rule = Some((rule_id, mt as u32));
                     // weight edits (weighted): refused when the new total overflows u32 or no longer reaches the
                     // threshold; after an accepted edit every subset is re-evaluated against the new map
                     if weighted && total <= u32::MAX as u64 {
                         let mut wts: Vec<u64> = weights.iter().map(|x| *x as u64).collect();
-                        let cur_t: u32 = invoke(e, &policy, "get_threshold", args!(e, rule_id, account.clone())).must("get_threshold");
+                        let cur_t: u32 = mt as u32;
                         for (si, nw) in [(n - 1, u32::MAX), (0usize, weights[0].saturating_add(7)), (n / 2, u32::MAX - 1), (0usize, 1u32)] {
                             let mut cand = wts.clone();
                             cand[si] = nw as u64;
                             let nt: u64 = cand.iter().sum();
                             let want = nt <= u32::MAX as u64 && (cur_t as u64) <= nt;
+                            let unsigned = call(&w, &policy, &account, "set_signer_weight", args!(e, signers[si].clone(), nw, r.clone(), account.clone()), false);
+                            rep.check("auth", unsigned.is_err(), "C14/auth/weighted/set_signer_weight/without-account-authorization", || format!("set_signer_weight without the account's authorization: {unsigned:?}"));
                             let got = call(&w, &policy, &account, "set_signer_weight", args!(e, signers[si].clone(), nw, r.clone(), account.clone()), true);
-                            rep.evaluations += 1;
+                            rep.evaluations += 2;
                             rep.case(format!("weighted/set_signer_weight/{}/{}", if nt > u32::MAX as u64 { "overflowing-total" } else if (cur_t as u64) > nt { "unreachable" } else { "fine" }, tag(&got)));
                             rep.check("ref", got.is_ok() == want, "C14/ref/weighted/set_signer_weight/outcome", || {
                                 format!("set weight of signer {si} to {nw}: new total {nt}, threshold {cur_t}: expected ok={want}, got {got:?}")
@@ -203,7 +230,7 @@ fn thresholds(cfg: &Cfg, rep: &mut Report) {
                         }
                     }
                     if weighted && total <= u32::MAX as u64 {
-                        let cur: u32 = invoke(e, &policy, "get_threshold", args!(e, rule_id, account.clone())).must("get_threshold");
+                        let cur: u32 = mt as u32;
                         let new_total = total - weights[0] as u64;
                         let got = call(&w, &policy, &account, "set_signer_weight", args!(e, signers[0].clone(), 0u32, r.clone(), account.clone()), true);
                         rep.check("ref", got.is_ok() == (cur as u64 <= new_total), &format!("C14/ref/{pname}/set_signer_weight/outcome"), || {
